@@ -23,6 +23,22 @@ def generate(rng, tier):
         yield gen_case(rng)
 
 
+def plain_element(rng, regs, SR, chans):
+    """No waituntil: a duration sweep is only valid when applied to every channel at once."""
+    e = regs.E()
+    ops = [("ENew", e)]
+    meta = {}
+    from .common import rnd_args
+    d1, d2 = rng.randint(2, 8) / SR, rng.randint(2, 10) / SR
+    for c in chans:
+        r = regs.B()
+        f1, f2 = rng.choice(["ramp", "ua"]), rng.choice(["ramp", "uc"])
+        ops += [("BNew", r), ("BInsert", r, -1, f1, rnd_args(rng, f1, d1), d1, "first"),
+                ("BInsert", r, -1, f2, rnd_args(rng, f2, d2), d2, "last"), ("BSetSR", r, SR), ("EAddBp", e, c, r)]
+        meta[str(c)] = {"first": f1, "last": f2, "d2": d2}
+    return e, ops, meta
+
+
 def base_element(rng, regs, SR, chans, T):
     """Every channel: [f1 (dur d1), waituntil(T), f2 (dur d2)] with aligned durations; returns meta per channel."""
     e = regs.E()
@@ -66,14 +82,24 @@ def gen_case(rng):
     chans = rng.sample([1, 2, 3, "A", "chB"], nch)
     T = 20 / SR
     kind = rng.choice(["varying", "varying", "repeat", "linear"])
-    e, prog, meta = base_element(rng, regs, SR, chans, T)
-    Nv, M = rng.randint(1, 4), rng.randint(1, 6)
-    vs = [variation(rng, SR, chans, meta, M, T) for _ in range(Nv)]
+    joint = kind == "varying" and len(chans) > 1 and rng.random() < 0.3
+    if joint:
+        e, prog, meta = plain_element(rng, regs, SR, chans)
+        M = rng.randint(2, 5)
+        durs = [rng.randint(2, 14) / SR for _ in range(M)]
+        vs = [(c, "first", "duration", list(durs)) for c in chans]      # every step valid only with all channels changed
+        if rng.random() < 0.5:
+            vs.append((chans[0], "last", PARAMS[meta[str(chans[0])]["last"]][0], [rng.choice([0.5, -0.25, 1]) for _ in range(M)]))
+        Nv = len(vs)
+    else:
+        e, prog, meta = base_element(rng, regs, SR, chans, T)
+        Nv, M = rng.randint(1, 4), rng.randint(1, 6)
+        vs = [variation(rng, SR, chans, meta, M, T) for _ in range(Nv)]
     info = {"kind": kind, "chans": [str(c) for c in chans]}
     if kind == "varying":
         s = regs.S()
         args = [[v[0] for v in vs], [v[1] for v in vs], [v[2] for v in vs], [v[3] for v in vs]]
-        bad = rng.random() < 0.15
+        bad = rng.random() < 0.15 and not joint
         if bad:
             which = rng.randrange(4)
             if which == 3 and Nv > 1:
@@ -107,9 +133,15 @@ def gen_case(rng):
         q = regs.S()
         prog += [("SNew", q), ("SSetSR", q, SR)]
         metas = {}
+        shared = None
         for pos in range(1, L + 1):
-            e2, ops, m2 = base_element(rng, regs, SR, chans, T)
-            prog += ops + [("SAddElement", q, pos, e2)]
+            if shared is not None and rng.random() < 0.4:
+                e2, m2 = shared                                   # the SAME element object at a second position
+                prog.append(("SAddElement", q, pos, e2))
+            else:
+                e2, ops, m2 = base_element(rng, regs, SR, chans, T)
+                prog += ops + [("SAddElement", q, pos, e2)]
+                shared = (e2, m2)
             metas[pos] = m2
             if rng.random() < 0.5:
                 prog.append(("SSetSequencing", q, pos, rng.choice(["goto", "jump_target"]), rng.choice([0, 1, L])))
